@@ -47,6 +47,22 @@ def ranges_of(prop):
     return out
 
 
+def widen(prop, rs):
+    """MUT_WIDE=1: every anchored range is extended to the whole functions it touches (function spans from the fact file of the pinned tree)."""
+    sys.path.insert(0, VERIF)
+    from rdv import core, extract
+    fx = core.Facts(extract.load('security' if prop in ('C16', 'C17', 'C18', 'C19') else 'default'))
+    out = []
+    for f, lo, hi in rs:
+        spans = [(b.line, b.end_line or b.line) for b in fx.bodies if b.kind in ('fn', 'assoc_fn') and b.file == f and b.line <= hi + 6 and (b.end_line or b.line) >= lo - 6 and
+                 '::tests::' not in b.key and (b.end_line or b.line) - b.line < 400]
+        if spans:
+            out.append((f, min(a for a, _ in spans) + 6, max(z for _, z in spans) - 6))
+        else:
+            out.append((f, lo, hi))
+    return out
+
+
 def mutants(path, lo, hi):
     src = open(os.path.join(WT, path)).read().split('\n')
     in_macro = 0
@@ -150,6 +166,8 @@ def main():
     run('git -C /repo worktree remove --force %s; git -C /repo worktree add --detach %s HEAD && cp /repo/Cargo.lock %s/' % (WT, WT, WT))
     for prop in args:
         rs = ranges_of(prop)
+        if os.environ.get('MUT_WIDE'):
+            rs = widen(prop, rs)
         seen = set()
         res = {'property': prop, 'ranges': rs, 'killed': [], 'survived': [], 'invalid': 0, 'repo_head': run('git -C /repo rev-parse --short HEAD')[1].strip()}
         n = 0
@@ -166,7 +184,8 @@ def main():
                 allm.append((path,) + m)
         # spread the budget over the ranges
         step = max(1, len(allm) // mx)
-        for path, i, old, new, what in allm[::step][:mx]:
+        off = int(os.environ.get('MUT_OFFSET', '0')) % step       # a later round samples the mutants between those of the earlier one
+        for path, i, old, new, what in allm[off::step][:mx]:
             full = os.path.join(WT, path)
             src = open(full).read().split('\n')
             src[i] = new
